@@ -47,6 +47,8 @@ def one(sid):
 def main():
     ids = sys.argv[1:] or sorted(os.listdir(os.path.join(ROOT, "seeded")))
     ids = [i for i in ids if os.path.isdir(os.path.join(ROOT, "seeded", i))]
+    if not sys.argv[1:]:  # retired seeds (neutralised by a later repair of /repo) are only run when named explicitly
+        ids = [i for i in ids if not json.load(open(os.path.join(ROOT, "seeded", i, "meta.json"))).get("retired")]
     with ThreadPoolExecutor(int(os.environ.get("JOBS", "3"))) as ex:
         results = list(ex.map(one, ids))
     path = os.path.join(ROOT, "seeded", "RESULTS.json")
